@@ -25,10 +25,11 @@ impl<'a> BorrowedFd<'a> {
     pub fn try_clone_to_owned(&self) -> (r: Result<OwnedFd, IOError>)
         ensures r matches Ok(fd) ==> same_description(fd.id(), self.id@) && lineage(fd.id()) == lineage(self.id@)
             && is_procfs(fd.id()) == is_procfs(self.id@) && mnt_checked(fd.id()) == mnt_checked(self.id@)
-            && mnt_of(fd.id()) == mnt_of(self.id@)
+            && mnt_of(fd.id()) == mnt_of(self.id@) && ino_of(fd.id()) == ino_of(self.id@)
     { unimplemented!() }
 }
 pub uninterp spec fn same_description(a: int, b: int) -> bool;
+pub uninterp spec fn ino_of(fd: int) -> u64;     // inode number of the object
 pub trait AsFd {
     spec fn fd_id(&self) -> int;
     fn as_fd(&self) -> (r: BorrowedFd<'_>) ensures r.id@ == self.fd_id();
